@@ -138,7 +138,8 @@ def run(ctx, oracle: str, focus=(), names=None, info=None, **kw):
     # the source-directed campaign: optimizers whose package changed since the pinned tree (thorough: everybody, once)
     hot_names = changed if ctx.quick else sorted(set(search.all_names()) | set(changed))
     if oracle == "monotone": hot_names = [n for n in hot_names if n in kw["elitist"]]
-    js += hot.jobs(ctx, hot_names, reps=(4 if ctx.quick else 1), record=oracle == "calls", snapshots=oracle == "history")
+    grid_for = set(changed) | (set(hot_names) if oracle == "size" else set())          # the fine parameter grid: changed optimizers always; everybody for the size oracle
+    js += hot.jobs(ctx, hot_names, reps=(4 if ctx.quick else 1), record=oracle == "calls", snapshots=oracle == "history", grid_for=grid_for)
     if changed: ctx.coverage["changed_optimizer_sources"] = changed
     obs = search.run_jobs(js)
     n = decide(ctx, obs, oracle, **kw)
